@@ -89,7 +89,7 @@ def base_scenario(rng, proto=None, small=False):
     sup = common.supported()
     proto = proto or common.pick_proto(rng, sup)
     ids = ids_for(proto)
-    threshold = rng.choice([None, -1, 0, 1, 2, 16, 64, 256, 1024])
+    threshold = rng.choice([None, -1, -2, 0, 1, 2, 16, 64, 127, 128, 256, 1024])
     cipher = rng.random() < 0.5
     login = []
     if threshold is not None and rng.random() < 0.5:
